@@ -17,7 +17,7 @@ from . import common
 from .common import rat, fmt_list, close
 
 PROP = 'C17'
-GENERATED = ['DFE']
+GENERATED = ['DFE', 'PDFs', 'PDFsReal']
 NEEDS_BUILD = True
 NEEDS_DRIVER = True
 DRIVER_MODULES = ['DFE']
@@ -689,6 +689,187 @@ def k_merge(chk, drv, dadi, caches, desc):
         chk.k_bad('merge', inp, 'raised ' + raised, out[:200], float('inf')); return
     if tables_equal(table_of(m, 2), parse_table(out[3:])) and isinstance(m.spectra, np.ndarray): chk.k_ok('merge:ok')
     else: chk.k_bad('merge', inp, 'merged table differs', out[:200], float('inf'))
+
+# ------------------------------------------------------------------ K: whole mixtures on real caches (components by the model)
+def split_calls(calls, sel1):
+    """quad calls of the 1-D component (integrand is the 1-D pdf itself) / everything else"""
+    c1 = [c for c in calls if c['kind'] == 'quad' and c['func'] is sel1]
+    c2 = [c for c in calls if not (c['kind'] == 'quad' and c['func'] is sel1)]
+    return c1, c2
+
+def k_mixfull(chk, drv, dadi, s1, s2, name1, sel1, name2, sel2, shared, rho, p2d, theta, ext):
+    M = dadi.DFE.Cache2D_mod
+    params = list(shared) + [rho, p2d]
+    inp = dict(op='DFE.mixture(real caches)', pdf1=name1, pdf2=name2, params=params, theta=theta, exterior_int=ext,
+               cache1=cache_desc(s1), cache2=cache_desc(s2))
+    ng1 = np.asarray(s1.neg_gammas, dtype=float); n1 = len(ng1)
+    with QuadSpy() as spy:
+        try:
+            impl = data_of(M.mixture(params, None, s1, s2, sel1, sel2, theta, None, ext))
+        except Exception as e:
+            chk.k_bad('mixfull', inp, 'raised %s: %s' % (type(e).__name__, e), 'a spectrum', float('inf')); return
+    c1, c2 = split_calls(spy.calls, sel1)
+    cl1 = classify_1d(c1, ng1)
+    cl2 = classify_2d(c2, np.asarray(s2.neg_gammas, dtype=float), sel2, np.array(list(shared) + [rho]))
+    if isinstance(cl1, str) or isinstance(cl2, str):
+        chk.k_bad('mixfull', inp, cl1 if isinstance(cl1, str) else cl2, 'documented regions', float('inf')); return
+    w1 = np.asarray(sel1(-ng1, list(shared)), dtype=float)
+    tk2 = int2d_tokens(s2, sel2, list(shared) + [rho], cl2)
+    if tk2 is None or not finite(w1, impl, list(cl1.values())):
+        chk.k_skipped += 1; return
+    n2 = len(s2.neg_gammas)
+    S1 = np.asarray(s1.spectra, dtype=float)[:n1]; S2 = np.asarray(s2.spectra, dtype=float)[:n2, :n2]
+    out = drv.ask('c17.mixfull %d %s %s %s %s %s %s %s %s %s %s' % (
+        int(ext), rat(theta), rat(p2d), fmt_list(ng1), fmt_list(w1), rat(cl1.get('N', 0.0)), rat(cl1.get('D', 0.0)),
+        fmt_list(np.asarray(s1.neu_spec, dtype=float).ravel()), rows(entries_1d(S1)), tk2, rows(entries_2d(S2))))
+    if not out.startswith('ok '):
+        chk.k_bad('mixfull', inp, small(impl), out[:200], float('inf')); return
+    mod = parse_vals(out[3:])
+    ok, err, scale = close(impl.ravel(), mod, rtol=RTOL)
+    if ok: chk.k_ok('mixfull')
+    else: chk.k_bad('mixfull', inp, small(impl), small(mod), err)
+
+def k_mixptfull(chk, drv, dadi, s1, s2, name1, sel1, name2, sel2, shared, rho, pt, p2d, theta, symm):
+    """pt = (ppos1, g1, ppos2, g2); symm: mixture_symmetric_point_pos (then only (ppos1, g1) is used)"""
+    M = dadi.DFE.Cache2D_mod
+    p1, g1, p2, g2 = pt
+    if symm: p2, g2 = p1, g1
+    params = list(shared) + ([rho, p1, g1, p2d] if symm else [rho, p1, g1, p2, g2, p2d])
+    fname = 'mixture_symmetric_point_pos' if symm else 'mixture_point_pos'
+    tag = 'mixsymfull' if symm else 'mixptfull'
+    inp = dict(op='DFE.%s(real caches)' % fname, pdf1=name1, pdf2=name2, params=params, theta=theta, cache1=cache_desc(s1), cache2=cache_desc(s2))
+    ng1 = np.asarray(s1.neg_gammas, dtype=float); n1 = len(ng1); ng2 = np.asarray(s2.neg_gammas, dtype=float)
+    gs1 = np.asarray(s1.gammas, dtype=float).copy(); sp1 = np.asarray(s1.spectra, dtype=float).copy()
+    impl = None; raised = None
+    with QuadSpy() as spy:
+        try:
+            impl = data_of(getattr(M, fname)(params, None, s1, s2, sel1, sel2, theta))
+        except Exception as e:
+            raised = type(e).__name__
+    c1, c2 = split_calls(spy.calls, sel1)
+    cl1 = classify_1d(c1, ng1)
+    biv = list(shared) + [rho]
+    cl2 = classify_2d(c2, ng2, sel2, np.array(biv))
+    if raised == 'IndexError' and (isinstance(cl1, str) or isinstance(cl2, str) or not c2):
+        cl1 = cl1 if not isinstance(cl1, str) else {}
+        cl2 = ({k: np.zeros(len(ng2)) for k in (('D', 'I'), ('N', 'I'), ('I', 'D'), ('I', 'N'))}, {})
+    if isinstance(cl1, str) or isinstance(cl2, str):
+        chk.k_bad(tag, inp, cl1 if isinstance(cl1, str) else cl2, 'documented regions', float('inf')); return
+    w1 = np.asarray(sel1(-ng1, list(shared)), dtype=float)
+    tk2 = int2d_tokens(s2, sel2, biv, cl2)
+    if tk2 is None or not finite(w1, list(cl1.values())) or (impl is not None and not finite(impl)):
+        chk.k_skipped += 1; return
+    arg = drv.ask('c17.pp2prep %s %s' % (rat(p1), rat(p2)))
+    a = Fraction(arg[3:])
+    tab = '%s:%s' % (arg[3:], rat(math.sqrt(float(a)))) if a >= 0 else '-'
+    out = drv.ask('c17.mixptfull %s %s %s %s %s %s %s %s %s %s %s %s %s %s %s %s %s %s %s %s %s' % (
+        'sym' if symm else 'pt', rat(theta), rat(p2d), rat(p1), rat(g1), fmt_list(ng1), fmt_list(w1), rat(cl1.get('N', 0.0)), rat(cl1.get('D', 0.0)),
+        fmt_list(np.asarray(s1.neu_spec, dtype=float).ravel()), fmt_list(gs1), rows(entries_1d(sp1)),
+        rat(rho), rat(p1), rat(g1), rat(p2), rat(g2), tab, fmt_list(np.asarray(s2.gammas, dtype=float)), tk2,
+        rows(entries_2d(np.asarray(s2.spectra, dtype=float)))))
+    if raised is not None or not out.startswith('ok '):
+        if raised is not None and out == 'err ' + raised: chk.k_ok(tag + ':raises')
+        else: chk.k_bad(tag, inp, 'raised %s' % raised if raised else small(impl), out[:200], float('inf'))
+        return
+    mod = parse_vals(out[3:])
+    ok, err, scale = close(impl.ravel(), mod, rtol=RTOL)
+    if ok: chk.k_ok(tag)
+    else: chk.k_bad(tag, inp, small(impl), small(mod), err)
+
+# ------------------------------------------------------------------ K: compiled pdfs — layout, dispatch, Lanczos series
+def _point_ln(x, y, m1, m2, s1, s2, r):
+    dx = (math.log(x) - m1) / s1; dy = (math.log(y) - m2) / s2
+    q = (dx * dx - 2 * r * dx * dy + dy * dy) / (1 - r * r)
+    return math.exp(-q / 2) / (2 * math.pi * s1 * s2 * math.sqrt(1 - r * r) * x * y)
+
+def _point_g(x, y, a1, a2, b1, b2):
+    from scipy.special import gammaln
+    f = lambda t, a, b: math.exp((a - 1) * math.log(t) - t / b - gammaln(a) - a * math.log(b))
+    return f(x, a1, b1) * f(y, a2, b2)
+
+def k_pdf_layout(chk, drv, dadi, which, xs, ys, params):
+    """the compiled result on an xs-by-ys grid vs per-point values placed by the model's loops / index expression"""
+    f = dadi.DFE.PDFs.biv_ind_gamma if which == 'g' else dadi.DFE.PDFs.biv_lognormal
+    xx = np.logspace(-1, 1.2, xs) * 1.07; yy = np.logspace(-0.8, 1.5, ys) * 0.93
+    inp = dict(op='PDFs.%s(layout)' % f.__name__, xx=xx.tolist(), yy=yy.tolist(), params=params)
+    out = drv.ask('c17.pdflayout %s %d %d' % (which, xs, ys))
+    if not out.startswith('ok '):
+        chk.k_bad('pdf:layout', inp, 'model', out, float('inf')); return
+    beyond, cells = out[3:].split(' ')
+    if beyond != '0' or '_' in cells.split(','):
+        # the model says the loops write outside the buffer / leave cells unwritten: do not run the real code on it
+        chk.k_bad('pdf:layout', inp, 'not run', 'model: %s writes beyond the buffer, cells %s' % (beyond, cells[:80]), float('inf')); return
+    pt = (lambda x, y: _point_g(x, y, *biv_params5('biv_ind_gamma', params))) if which == 'g' else \
+         (lambda x, y: _point_ln(x, y, *biv_params5('biv_lognormal', params)))
+    want = np.empty((xs, ys))
+    for k, c in enumerate(cells.split(',')):
+        ii, jj = [int(v) for v in c.split(':')]
+        if ii >= xs or jj >= ys:
+            chk.k_bad('pdf:layout', inp, 'not run', 'model reads xx[%d] / yy[%d] outside the inputs' % (ii, jj), float('inf')); return
+        want[k // ys, k % ys] = pt(xx[ii], yy[jj])
+    impl = np.asarray(f(xx, yy, params), dtype=float).reshape(xs, ys)
+    e = pdf_mismatch(impl, want)
+    if e <= 1e-9: chk.k_ok('pdf:layout:%s' % ('square' if xs == ys else 'rect'))
+    else: chk.k_bad('pdf:layout', inp, small(impl), small(want), e)
+
+def k_pdf_dispatch(chk, drv, dadi, which, L, rng):
+    """parameter-count dispatch: compiled code and reference formula vs the translated tables"""
+    P = dadi.DFE.PDFs
+    f, fpy = (P.biv_ind_gamma, P.biv_ind_gamma_py) if which == 'g' else (P.biv_lognormal, P.biv_lognormal_py)
+    if which == 'g': params = [float(r3(rng.uniform(0.4, 2.5))) for _ in range(L)]
+    else: params = [float(r3(rng.uniform(0.3, 0.9))) for _ in range(L)]
+    xx = np.array([0.3, 1.7, 4.0]); yy = np.array([0.6, 2.2])
+    inp = dict(op='PDFs.%s(dispatch)' % f.__name__, params=params, xx=xx.tolist(), yy=yy.tolist())
+    for side, fn in (('c', f), ('py', fpy)):
+        out = drv.ask('c17.pdfdispatch %s_%s %d' % (side, which, L))
+        if not out.startswith('ok '):
+            chk.k_bad('pdf:dispatch', inp, side, out, float('inf')); continue
+        handled, items = out[3:].split(' ')
+        tab = dict(it.split('=') for it in items.split(','))
+        try:
+            got = np.asarray(fn(xx, yy, params), dtype=float); raised = None
+        except ValueError:
+            got = None; raised = 'ValueError'
+        if handled == '0':
+            # reference: must raise; compiled: leaves its variables at 0 -> not a density (nan, inf or 0 everywhere)
+            okk = (raised is not None) if side == 'py' else (got is not None and not np.any(np.isfinite(got) & (got > 0)))
+            if okk: chk.k_ok('pdf:dispatch:%s:unhandled' % side)
+            else: chk.k_bad('pdf:dispatch', dict(inp, side=side), 'returned a density' if got is not None else raised, 'length %d is not handled' % L, float('inf'))
+            continue
+        if raised is not None:
+            chk.k_bad('pdf:dispatch', dict(inp, side=side), 'raised ' + raised, out, float('inf')); continue
+        names = ['alpha1', 'alpha2', 'beta1', 'beta2'] if which == 'g' else ['mu1', 'mu2', 'sigma1', 'sigma2', 'rho']
+        vals = [params[int(tab[nm])] if tab[nm] != '_' else 0.0 for nm in names]
+        pt = _point_g if which == 'g' else _point_ln
+        want = np.array([[pt(x, y, *vals) for y in yy] for x in xx])
+        e = pdf_mismatch(got.reshape(want.shape), want)
+        if e <= 1e-9: chk.k_ok('pdf:dispatch:%s:L=%d' % (side, L))
+        else: chk.k_bad('pdf:dispatch', dict(inp, side=side, table=tab), small(got), small(want), e)
+
+def k_lanczos(chk, drv, dadi, alpha):
+    """gamma_func(alpha) as the compiled code uses it (recovered from one value of biv_ind_gamma) vs the translated
+    Lanczos series evaluated exactly by the model (sqrt / pow / exp / sin applied here in floating point)"""
+    P = dadi.DFE.PDFs
+    x, b = 1.3, 2.0
+    v = float(np.asarray(P.biv_ind_gamma(np.array([x]), np.array([x]), [alpha, b])).ravel()[0])
+    inp = dict(op='PDFs.c gamma_func', alpha=alpha)
+    marg = math.sqrt(v)                                  # x^(a-1) e^(-x/b) / (b^a G)
+    G_impl = x ** (alpha - 1) * math.exp(-x / b) / (b ** alpha * marg)
+    def main(z):
+        out = drv.ask('c17.lanczos %s' % rat(z))
+        if not out.startswith('ok '): return None, None
+        xs, t, lim = out[3:].split(' ')
+        xs = float(Fraction(xs)); t = float(Fraction(t))
+        return math.sqrt(2 * math.pi) * t ** (z - 1 + 0.5) * math.exp(-t) * xs, float(Fraction(lim))
+    y, lim = main(alpha)
+    if y is None:
+        chk.k_bad('pdf:lanczos', inp, G_impl, 'model', float('inf')); return
+    if alpha < lim:
+        y1, _ = main(1.0 - alpha)
+        y = math.pi / (math.sin(math.pi * alpha) * y1)
+    e = abs(G_impl - y) / abs(y)
+    if e <= 1e-11: chk.k_ok('pdf:lanczos:%s' % ('reflection' if alpha < lim else 'main'))
+    else: chk.k_bad('pdf:lanczos', inp, G_impl, y, e)
 
 # ================================================================== L3: the property itself, on the real code
 FUNCS = {'demo1': demo1, 'demo2': demo2, 'demo1_1pop': demo1_1pop, 'neutral1': neutral1, 'neutral2': neutral2}
